@@ -854,6 +854,11 @@ cseKillExpFrExpInfoList(ExpInfoList expInfoList, Bitv bitv,
 
 		bitvSet(class, bitvPhantom, csePhantomNo(expInfo->exp));
 
+		/* Out = (In | Gen) - Kill: an evaluation earlier in the
+		 * same block must not leave the phantom bit killed. */
+		if (bit)
+			bitvClear(class, bitv, csePhantomNo(expInfo->exp));
+
 	}
 
 
